@@ -73,7 +73,9 @@ CONF_AP = ['route 10.0.3.0/24 path-information 0.0.0.1 next-hop 1.1.1.1 med 10',
 VARIANTS = {
     # name: (group-updates, add-path, op alphabet)
     'grouped': dict(group='group-updates true;', addpath='', ops=['Ax', 'Ay', 'Az', 'Bx', 'By', '-A', '-B', 'wd+', 'wd-', 'flush', 'clear', 'pull']),
-    'ungrouped': dict(group='group-updates false;', addpath='', ops=['Ax', 'Ay', 'Az', 'Bx', '-A', '-B', 'wd+', 'wd-', 'flush', 'clear', 'pull']),
+    # in this variant the withdraws are given as the operator usually types them: the announce line with 'withdraw'
+    # in front (next hop and attributes of the *x* flavour), not the bare prefix
+    'ungrouped': dict(group='group-updates false;', addpath='', wd_full=True, ops=['Ax', 'Ay', 'Az', 'Bx', '-A', '-B', 'wd+', 'wd-', 'flush', 'clear', 'pull']),
     'v6': dict(group='group-updates true;', addpath='', ops=['Ax', 'Ay', 'Dx', 'Dy', '-A', '-D', 'eflush', 'clear', 'pull']),
     'addpath': dict(group='group-updates true;', addpath='add-path send/receive;', ops=['Ax', 'Ay', 'Az', 'Bx', '-A', '-A2', 'flush', 'clear', 'pull']),
 }
@@ -128,7 +130,7 @@ def world(variant: str):
         routes[name] = neighbor.resolve_self(r)
     wd = {}
     for name, text in texts.items():
-        (r,) = api.api_route(text.split(' next-hop')[0], 'withdraw')
+        (r,) = api.api_route(text if v.get('wd_full') else text.split(' next-hop')[0], 'withdraw')
         from exabgp.protocol.ip import IP
 
         if r.nexthop is IP.NoNextHop:
@@ -392,7 +394,7 @@ def run(ctx: core.Ctx) -> None:
     depth = int(os.environ.get('C04_DEPTH', '6' if ctx.tier == 'quick' else '7'))
     variants = ['grouped', 'ungrouped', 'v6', 'addpath']
     ctx.rule = ('BFS over all operation sequences (announce same prefix with 2 attribute sets / 2 next hops / 2 path ids, '
-                'withdraw, watchdog +/-, flush, enhanced flush, clear, transmitter pull) up to depth %d on a real OutgoingRIB driven '
+                'withdraw (bare prefix; in the ungrouped variant the full announce line, i.e. with attributes), watchdog +/-, flush, enhanced flush, clear, transmitter pull) up to depth %d on a real OutgoingRIB driven '
                 'through the real Protocol.new_update_generator; a state is non-trivial when the drained peer table is non-empty '
                 'and at least one operator op interleaved with a live generator' % depth)
     ctx.assumptions += [
